@@ -1322,6 +1322,33 @@ pub fn scen_determ(ctx: &Ctx) -> i32 {
         let upd = Seq { kt: a.kt, params: a.params, ops: a.ops.iter().filter(|o| matches!(o, Op::Put(..) | Op::Del(..))).cloned().collect() };
         jobs.push((upd, a));
     }
+    // directed: bulk_put batches that name a pair twice (the same key with the same value, so the outcome does not
+    // depend on the order in which the sort leaves equal keys): run A in this process, run B in a child process
+    for i in 0..(if ctx.tier_thorough { 24 } else { 6 }) {
+        let mut r = rng.fork(71_000 + i as u64);
+        let kt = *r.pick(&Kt::ALL);
+        let mut ops = Vec::new();
+        for round in 0..3 {
+            let n = r.range(20, 60) as usize;
+            let mut kvs: Vec<(B, B)> = Vec::new();
+            while kvs.len() < n {
+                let k = gen_key(&mut r, kt, 0);
+                if !kvs.iter().any(|x| x.0.bytes() == k.bytes()) {
+                    kvs.push((k, B::Pat(r.range(1, 200) as usize, round * 100 + kvs.len() as u64)));
+                }
+            }
+            for _ in 0..r.range(1, 3) {
+                let dup = r.pick(&kvs).clone();
+                let at = r.below(kvs.len() as u64 + 1) as usize;
+                kvs.insert(at, dup);
+            }
+            ops.push(Op::BulkPut(kvs));
+            ops.push(Op::Len);
+        }
+        let a = Seq { kt, params: Params::buckets(*r.pick(&[8u64, 64, 1024])), ops };
+        let bseq = splice_reads(&mut r, &a);
+        jobs.push((a, bseq));
+    }
     let results: Mutex<Vec<(usize, Option<String>, Vec<Diff>, Cov, usize)>> = Mutex::new(Vec::new());
     let next = Mutex::new(0usize);
     std::thread::scope(|sc| {
